@@ -100,3 +100,55 @@ def _rely_drop_prefix(ex, st, obj, cur, n):
 
 
 R.contracts["PeerConnection.work_write_queue"].interference = [("PeerConnection", "_write_buffer", "drop-prefix")]
+
+# ---- the receive branch of the I/O loop (slice `for rsock in ready_r`), C14: raises nothing ----------------------------
+R.contract("Socket.accept", trusted=True, params={"self": "Socket"}, returns="Tuple[Socket,Tuple[str,int]]",
+           allocates=False,
+           note="T-sock (ASSUMED): accept() on a listening socket that select() reported readable returns a new connected "
+                "socket and the peer address and does not fail (an accept failure is not among C14's fault kinds; in the "
+                "real code it would propagate out of the I/O loop)")
+R.contract("Socket.recv", trusted=True, params={"self": "Socket", "n": "int"}, returns="bytes",
+           raises=[Raise("OSError", "True", "may")], ensures=["len(result) <= n"])
+R.contract("PeerConnection.add_in_bytes", trusted=True, params={"self": "PeerConnection", "data": "bytes"},
+           note="hands the bytes to the connection's read queue (queue.Queue.put on an unbounded queue: does not raise)")
+_rslice = R.contract("Node._handle_connections@for:rsock", params={"self": "Node", "rsock": "Socket"},
+                     requires=[("generators-in-range", "seq_ok(self.end_to_end_seq)"),
+                               ("identity-encodable", "encodable(self.origin_host) and encodable(self.realm_name)")],
+                     raises=[Raise("RuntimeError", "True", "may")],
+                     modifies=["*PeerConnection.state", "*StoppableThread.stopped", "*Socket.closed", "*Peer.connection",
+                               "*Peer.last_connect", "*Peer.last_disconnect", "*Peer.disconnect_reason",
+                               "dict:self.connections", "dict:self.peer_sockets", "dict:self.socket_peers",
+                               "dict:self._half_ready_connections", "dict:self._peer_waiting_answer", "*Event.flag",
+                               "*list:Peer"],
+                     ghost_modifies=["*PeerConnection.g_close_calls", "*PeerConnection.g_close_reason", "*PeerConnection.g_attn"],
+                     props=["C14"],
+                     note="one iteration of `for rsock in ready_r` for a socket object (listening or connection socket); the "
+                          "the interrupt-pipe case is covered only as far as the model lets a socket object equal the pipe's descriptor; "
+                          "RuntimeError can only come from _generate_connection_id giving up after 11 colliding random ids")
+from pyvc import models as _m2
+from pyvc.values import VBytes as _VBytes
+
+
+def _os_read(ex, st, args, kwargs, k, where):
+    """T-os (ASSUMED): os.read(fd, n) on the node's own interrupt pipe, after select() reported it readable, returns at
+    most n bytes and does not fail"""
+    from pyvc.smt import Le, seq_len
+    t = ex.arbitrary("(Seq Int)", "os_read")
+    s2 = st.assume(Le(seq_len(t), ex.num(ex.unwrap(args[1]))))
+    return k(s2, _VBytes(t))
+
+
+_m2.EXT["os.read"] = _os_read
+if "Socket.setblocking" not in R.contracts:
+    R.contract("Socket.setblocking", trusted=True, params={"self": "Socket", "flag": "bool"})
+if "PeerConnection.__new__" not in R.contracts:
+    from .node import CLOSED as _CLOSED
+    R.contract("PeerConnection.__new__", trusted=True,
+               params={"peer_ip": "Any", "peer_port": "int", "peer_direction": "int", "interrupt_fileno": "int"},
+               returns="PeerConnection", allocates=True,
+               ensures=["result.state == %d" % _CLOSED, "not result._read_thread.stopped and not result._write_thread.stopped",
+                        "result._direction == peer_direction", "result.node_name == '' and result.host_identity == ''",
+                        "len(result._write_msg_queue.g_put) == 0 and result.g_close_calls == 0",
+                        "fresh(result.hop_by_hop_seq) and fresh(result._write_msg_queue) and fresh(result._read_thread) and "
+                        "fresh(result._write_thread)"],
+               note="ASSUMED (read from PeerConnection.__init__): a new connection object starts its two workers")
